@@ -132,6 +132,13 @@ class C05(Check):
             for tail in (0, 1, 63, 64, 65):
                 full = rng.bytes(64 * k + tail)
                 add("adv-cb", True, [blk(19, cb_full=full, cb_k=k)], [[]], bound=1)
+        # byte counters no real transaction reaches (the length field of the padding is 64 bits)
+        from ..refs import sha256 as S
+        for counter in (64, 2 ** 29 - 64, 2 ** 29, 2 ** 32, 2 ** 35 + 64, 2 ** 61 - 128):
+            for tail in (0, 37, 64):
+                st = struct.unpack(">8I", rng.bytes(32))
+                raw = reqs.coinbase_from_midstate(counter, st, rng.bytes(tail))
+                add("adv-cb-counter", True, [blk(19, cb_raw=raw)], [[]], bound=0)
         return cfgs
 
     def alphabets(self):
